@@ -6,6 +6,11 @@
     hook handling is `Extracted.TH.thStart / thShutdown / thNewConfig` — the bodies of `TriggerHandler.start /
     shutdown / new_config` *translated* from the source this run — and whose reaction to failures is switched by
     facts computed from the extracted guard skeletons (`Lifecycle.facts`).
+  * `Lifecycle.startX / shutdownX` (Model/LifecyclePlan.lean): `Deep.start` / `Deep.shutdown` TRANSLATED statement by
+    statement (`Extracted.DeepLC.startPlan / shutdownPlan`, one entry per source statement) and run by a generic
+    interpreter; `c14_start_translated` / `c14_shutdown_translated` prove them equal to the state machine above for every
+    state and fault assignment, so the history theorems hold of the translated methods (`c14_restore_translated`) and
+    a dropped / added / moved statement of either method breaks a proof obligation.  The driver runs the translated ones.
   * `Guard.exec` on the skeletons of `Deep.start`, `Deep.shutdown`, `TaskHandler.flush`, `RepeatedTimer._target`.
   Quantifiers: every sequence of operations `ops : List Op` (start, shutdown with ANY fault assignment, config
   update, failing/non-failing poll tick), every pair of pre-existing trace functions `h1 h2` (none, a host
@@ -22,12 +27,17 @@
   * "drains delivery" is `TaskHandler.flush`: it waits at most 10 s per pending send and then gives up on it (known
     finding `C09/flush-gives-up-after-10s`); in the model a waited-for send is a completed send.
   * an instance that was shut down is not started again (`Deep._shutdown`); a new life needs a new `Deep`.
+  * a service call of `Deep.start` that RAISES is outside the statement's quantifier; modelled (`startF`): harmless when
+    it happens before `trigger_handler.start()` (`c14_failed_start_unchanged_partial`), otherwise the hooks stay
+    installed with `started = False` and a retry + shutdown leaves the agent's function installed
+    (`c14_failed_start_witness`, probe notes/probes/c14_failed_start_retry.py) — reported as suspicious behaviour.
   * whitelisted logging: the handler of the steps loop logs the failing step with `%s` (a bound method, i.e. the
     plugin's repr); with logging ENABLED a BaseException raised by that repr is not swallowed by `logging` and leaves
     `Deep.shutdown` (probe notes/probes/c14_shutdown_log_argument_baseexception.py) — outside the model, which treats
     the logging calls as unable to raise.
 -/
 import DeepModel.Proofs.Lifecycle
+import DeepModel.Proofs.LifecyclePlan
 
 namespace C14
 open Lifecycle Guard Extracted.Guards
@@ -228,6 +238,65 @@ theorem c14_start_marks_started (env : Env) (tr tr' : Trace) (h : exec env deepS
     Ev.set "started" "True" ∈ tr' :=
   normal_last_assign env "started" "True" deepStart (by decide) tr tr' h
 
+
+/-! ### the translated `Deep.start` / `Deep.shutdown`
+
+  `startX` / `shutdownX` run the statement lists `Extracted.DeepLC.startPlan / shutdownPlan` — the two method bodies
+  translated from the source of this run, one entry per statement.  The theorems above are stated for the
+  specification machine (`start` / `shutdown`, Model/Lifecycle.lean); the three below carry them over to the
+  translated methods, and fail when a statement of either method is dropped, added or moved. -/
+
+/-- **the translated `Deep.start` is the specified one** — in every state (started or not, shut down before or not,
+    NO_TRACE or not, any hooks). -/
+theorem c14_start_translated (d : Deep) : startX d = start d := startX_eq d
+
+/-- **the translated `Deep.shutdown` is the specified one** — in every state and for every fault assignment (which
+    plugins' `shutdown()` raise, of which class, which pending sends fail): same resulting state, same "raises". -/
+theorem c14_shutdown_translated (f : Faults) (d : Deep) : shutdownX f d = shutdown f d := shutdownX_eq f d
+
+/-- **restore exact, hooks untouched under NO_TRACE, for the translated methods** — `c14_restore` and
+    `c14_notrace_untouched` for every history run with the translated `start`/`shutdown` (`runX`). -/
+theorem c14_restore_translated (h1 h2 : Hook) (nt : Bool) (ps pend : List Nat) (ops : List Op) :
+    let d := runX ops (init h1 h2 nt ps pend)
+    let host := (runH ops (init h1 h2 nt ps pend, (h1, h2))).2
+    (d.started = false → d.hooks = host) ∧ (d.started = true → nt = false → d.hooks = (.agent, .agent)) ∧
+    (nt = true → d.hooks = host) := by
+  simp only [runX_eq]
+  refine ⟨(c14_restore h1 h2 nt ps pend ops).1, (c14_restore h1 h2 nt ps pend ops).2, ?_⟩
+  intro hnt; subst hnt
+  exact c14_notrace_untouched h1 h2 ps pend ops
+
+/-- **shutdown completes, for the translated method** — `c14_shutdown_completes` for `shutdownX`. -/
+theorem c14_shutdown_completes_translated (f : Faults) (d : Deep) (hs : d.started = true) :
+    (shutdownX f d).2 = false ∧ (shutdownX f d).1.started = false ∧ (shutdownX f d).1.pollAlive = false ∧
+    (shutdownX f d).1.pending = [] ∧ (shutdownX f d).1.tasksOpen = false ∧
+    (shutdownX f d).1.shutCalls = d.shutCalls ++ d.plugins ∧
+    (shutdownX f d).1.hooks = (if d.w.tracing then (d.w.oldSys, d.w.oldThr) else d.hooks) := by
+  rw [c14_shutdown_translated, shutdown_started f d hs]
+  cases ht : d.w.tracing <;> simp [Deep.hooks, thShutdown_tracing, thShutdown_not_tracing, ht]
+
+/-- **a start that fails before the hooks are touched changes nothing** (`_partial`: hypothesis "the failing service
+    call is not `trigger_handler.start()`, `grpc.start()` or `poll.start()`") — when loading the plugins, creating the
+    resource, reading the providers or storing the resource raises, `Deep.start` raises with the state as it was, so
+    it can simply be retried. -/
+theorem c14_failed_start_unchanged_partial (sf : StartFaults) (d : Deep)
+    (h1 : sf .thStart = false) (h2 : sf .grpcStart = false) (h3 : sf .pollStart = false)
+    (hr : (startF sf d).2 = true) : (startF sf d).1 = d := by
+  revert hr
+  simp only [startF, execPlan, Extracted.DeepLC.startPlan, Fld.get, h1, h2, h3]
+  cases d.started <;> cases d.everShut <;> cases sf .loadPlugins <;> cases sf .resourceCreate <;>
+    cases sf .providers <;> cases sf .setResource <;> simp [primStep]
+
+/-- **without that hypothesis it is false of the code**: `grpc.start()` (called after `trigger_handler.start()`)
+    fails once; the application had trace functions 1 and 2; the retry succeeds; after the shutdown both trace
+    functions are the AGENT's — the retry remembered the agent's own function as "previous".  Failing start steps are
+    outside C14's quantifier; recorded as suspicious behaviour (probe notes/probes/c14_failed_start_retry.py). -/
+theorem c14_failed_start_witness :
+    let d0 := init (.host 1) (.host 2) false [] []
+    let d1 := (startF (fun p => p == .grpcStart) d0).1
+    (startF (fun p => p == .grpcStart) d0).2 = true ∧ d1.started = false ∧ d1.hooks = (.agent, .agent) ∧
+    (shutdownX default (startX d1)).1.hooks = (.agent, .agent) := by decide
+
 /-! ### non-vacuity -/
 
 private def allFail : Faults := { plugin := fun _ => true, task := fun _ => true, pluginBase := true }
@@ -253,5 +322,16 @@ example :
 example :
     let d := run [.start, .newConfig [7, 8]] (init (.host 1) (.host 2) false [] [])
     d.hooks = (.agent, .agent) ∧ armed d = 2 := by decide
+
+/-- the translated methods on a concrete history: same states as the specification machine, hooks restored, every
+    plugin shut down although all fail -/
+example :
+    let ops := [Op.start, .newConfig [7], .shutdown allFail, .start]
+    runX ops (init (.host 1) .none false [10, 11] [1, 2]) = run ops (init (.host 1) .none false [10, 11] [1, 2]) ∧
+    (runX ops (init (.host 1) .none false [10, 11] [1, 2])).hooks = (.host 1, .none) ∧
+    (runX ops (init (.host 1) .none false [10, 11] [1, 2])).shutCalls = [10, 11] := by decide
+
+/-- `c14_failed_start_unchanged_partial` is not vacuous: `load_plugins` raising -/
+example : (startF (fun p => p == .loadPlugins) (init (.host 1) .none false [] [])).2 = true := by decide
 
 end C14
